@@ -77,6 +77,10 @@ CHECKS["C18"] = dict(category="translation_validation",
    technique="translator: the combinational equations are parsed out of the VHDL emitted for each document on every run and given meaning by Model.BoolEq; the compiled Lean specification Spec.TStep (SCXML micro-step over the transpilers' conflict relation, Spec.Legal for the configurations) enumerates the property's whole quantifier per document and compares state_next_*",
    text="Per document the property's quantifier is finite (legal configurations x events and the spontaneous step x 2^k condition valuations) and is decided completely - by exhaustive evaluation in compiled Lean code, which is a decision procedure for that document but not a kernel-checked proof; no theorem quantifies over all documents (that would need a Lean model of the equation generator itself, planned). Spec.TStep is tied to the interpreter by comparing the configurations it visits on event histories with the compiled interpreter's. Hence translation validation, not proof.",
    design_ref="6 / C18", note="Trusted: translate/vhdl_eqs.py (parser of the emitted assignments, mapping of event signals to event names by trie order), Model.BoolEq's reading of VHDL concurrent assignments, Spec.TStep/Spec.Legal. No VHDL simulator is installed.")
+CHECKS["C04"] = dict(category="translation_validation",
+   technique="the emitted C is compiled with ASan+UBSan and the generator's own sizing macros, driven with the same external events through null-datamodel callbacks, and its observable trace (dequeued events, logs of every content block, configuration after every micro-step) is compared with the Lean model of the interpreter (itself tied to the compiled interpreter by C01) on random and exhaustive small charts",
+   text="Per document and event history the generated machine must reproduce the interpreter's observable behaviour, and the sanitizers decide the 'never reads or writes outside the arrays it declares' part for the executions run. No theorem about the emitted step function exists (a Lean model of the emitted algorithm over the C05 tables is the planned route): the Lean model serves as the oracle, the verdict is per run - translation validation by differential execution.",
+   design_ref="6 / C04", note="Trusted: gcc, the sanitizers, gen/cdriver.c (callbacks), Model.Large as oracle.")
 PENDING = {}   # id -> reason (filled while the framework is being built)
 
 def main():
